@@ -10,7 +10,7 @@ import re
 
 from lib import common, qscen
 
-THEOREMS_TIED = ["C01_kv_sound", "C01_kv_returned_was_added", "C01_sql_sound", "C01_sql_quote_roundtrip"]
+THEOREMS_TIED = ["C01_kv_sound", "C01_kv_returned_was_added", "C01_sql_sound", "C01_sql_quote_roundtrip", "C01_sql_literal_roundtrip"]
 
 
 # ---- SQL token skeleton --------------------------------------------------------------------------
@@ -199,10 +199,6 @@ def check_text(report, scen, rec):
         sa_, sb_ = canon_skeleton(sql_skeleton(a)), canon_skeleton(sql_skeleton(b))
         if sa_ != sb_:
             cls = None
-            if "?" in sa_ or ":" in sa_ or "%" in sa_.replace("%", "%", 0) and "COMPILE-ERROR" in a:
-                cls = "sql-text-bind-colon"
-            if any(("\\:" in v) or re.search(r"(?<![:\w\\]):(\w+)(?!:)", v) for q in rec["cleaned"] for _, vals in (q.tags or []) for v in vals):
-                cls = "sql-text-bind-colon"
             report.property_failure(
                 "a filter value changes the %s statement: skeleton %r vs shape twin %r" % ("postgres" if pg else "sqlite", sa_[-160:], sb_[-160:]),
                 qscen.replay_payload(rec), cls)
@@ -211,8 +207,6 @@ def check_text(report, scen, rec):
         if not (lits - {"hex"}) <= exp | {"hex"} or not exp <= lits:
             odd = sorted((lits ^ exp) - {"hex"})
             cls = None
-            if any(("\\:" in v) or re.search(r"(?<![:\w\\]):(\w+)(?!:)", v) for q in rec["cleaned"] for n_, vals in (q.tags or []) for v in list(vals) + [n_]):
-                cls = "sql-text-bind-colon"
             report.property_failure(
                 "the %s statement does not carry the filter's values verbatim as literals: %r" % ("postgres" if pg else "sqlite", odd[:4]),
                 qscen.replay_payload(rec), cls)
@@ -225,10 +219,6 @@ def oracle(report, rec):
     bad = [i for i in rec["ids"] if i not in rec["stored"] or i not in rec["spec_incl"]]
     if bad:
         cls = None
-        if rec["backend"] == "sql" and rec.get("hazard"):
-            vals = [v for q in rec["cleaned"] for _, vs in (q.tags or []) for v in vs]
-            if any("\\:" in v for v in vals):
-                cls = "sql-text-bind-colon"
         report.property_failure(
             "%s backend returned %d event(s) that are not stored or match no filter of %r" % (rec["backend"], len(bad), rec["filters"]),
             qscen.replay_payload(rec), cls)
